@@ -14,6 +14,7 @@
 -/
 import Rsdns.Model.Client
 import Rsdns.Props.C12
+import Rsdns.Lemmas.Guards
 
 set_option linter.unusedVariables false
 
@@ -72,7 +73,7 @@ theorem typed_is_raw (c : Cfg) (id : Nat) (qname : Bytes) (qclass : Nat) (us ts 
   intro raw
   have hraw : raw = queryRaw c id qname Generated.TYPE_A qclass c.cfgbuf us ts q d := rfl
   unfold queryRRSet
-  simp only [hb, if_false, hcl, Bool.not_true, Bool.false_eq_true]
+  simp only [Cfg.rrsetNoBuffer_eq, Cfg.rrsetBadClass_eq, beq_iff_eq, hb, if_false, hcl, Bool.not_true, Bool.false_eq_true]
   rw [← hraw]
   refine ⟨?_, ?_, ?_⟩
   · cases hres : raw.result <;> simp
@@ -115,5 +116,11 @@ theorem accepted_has_current_id (id : Nat) (qname : Bytes) (qtype qclass buflen 
   obtain ⟨ha, _, _⟩ := stale_ignored id qname qtype qclass buflen w q d b f rest h
   obtain ⟨mr, hd, mr1, _, _, h1, h2, h3, _⟩ := C12.accept_sound id qname qtype qclass b f ha
   exact ⟨mr, hd, mr1, h1, h2, h3⟩
+
+/-! ### the parameter gates of `query_rrset` regenerated from both clients -/
+
+theorem rrset_gates_closed_form (c : Cfg) (isData : Bool) :
+    c.rrsetNoBuffer = (c.cfgbuf == 0) ∧ c.rrsetBadClass isData = !isData :=
+  ⟨Cfg.rrsetNoBuffer_eq c, Cfg.rrsetBadClass_eq c isData⟩
 
 end Rsdns.C16
